@@ -969,8 +969,32 @@ func (g *G) objOp(c *Ctx, m map[string]any, d int) string {
 	return g.anyOp(c, d)
 }
 
+// extKeyProg: programs around JSON documents whose KEYS are fq's ext-key names (%K is replaced by one of them)
+func (g *G) extKeyProg() string {
+	g.feat("extkey")
+	k := extKeys[g.r.Intn(len(extKeys))]
+	v := g.pick("1", "null", "true", "\"s\"", "{\"error\":\"x\"}", "[]", "{}", "[1,{\"%K\":2}]", "1.5", "12345678901234567890", "{\"%K\":{\"%K\":null}}")
+	doc := "{\"%K\":" + v + g.pick("", ",\"a\":1", ",\"_error\":{\"error\":\"y\"}", ",\"_format\":\"json\"") + "}"
+	lit := jqStr(strings.ReplaceAll(doc, "%K", k)) // the JSON text as a jq string literal
+	t := g.pick(
+		"LIT | fromjson", "LIT | fromjson | tojson", "LIT | fromjson | keys", "LIT | fromjson | to_entries", "LIT | fromjson | has(\"%K\")", "LIT | fromjson | .[\"%K\"]",
+		"LIT | fromjson | .%K", "LIT | fromjson | [paths]", "LIT | fromjson | [.. | scalars]", "LIT | fromjson | length", "LIT | fromjson | type", "LIT | fromjson | del(.%K)",
+		"LIT | fromjson | .%K = 7", "LIT | fromjson | map_values(type)", "LIT | fromjson | with_entries(.key |= ascii_upcase)", "LIT | fromjson | tojson | fromjson | . == (LIT | fromjson)",
+		"LIT | fromjson | @json", "LIT | fromjson | tostring", "LIT | fromjson | [.[]]", "LIT | try fromjson catch \"ERR\"", "[LIT, LIT] | map(fromjson)", "LIT | fromjson | . + {b: 2} | keys",
+		"LIT | fromjson | getpath([\"%K\"])", "LIT | fromjson | [path(..)]", "LIT | fromjson | tojson | length", "\"[\" + LIT + \"]\" | fromjson | .[0].%K", "LIT | fromjson | .%K?", "LIT | fromjson | [.%K, .a, .zz]",
+		"{%K: 1} | tojson", "{%K: {error: \"x\"}} | tojson | fromjson", "{\"%K\": .} | keys", "{%K: 1, a: {%K: [2]}} | [paths]", "{%K: 1} | has(\"%K\"), .%K, to_entries", "{%K: null} | .%K //= 3 | tojson | fromjson | .%K",
+		"[{%K: 1}, {%K: 2}] | group_by(.%K) | tojson | fromjson | map(map(.%K))", "{%K: \"v\"} | @json | fromjson | .%K | ascii_upcase", "{a: {%K: 1}} | tojson | fromjson | .a | has(\"%K\")",
+		"$in | [.. | objects | keys[] | select(startswith(\"_\"))] | unique", "$in | tojson | fromjson | [.. | objects | to_entries[] | select(.key | startswith(\"_\")) | .key]", "$in | [paths | map(tostring) | join(\"/\") | select(test(\"_\"))]",
+		"$in | tojson | fromjson | .x?", "$in | tojson | fromjson | .x? | keys?", "$in | .js? | fromjson? | keys?", "$in | .js? | fromjson? | [.[]?]", "$in | .js? | fromjson? | tojson", "$in | .js? | fromjson? | to_entries?",
+		"$in | tojson | fromjson | ._error?", "$in | tojson | fromjson | has(\"_error\")?", "$in | tojson | fromjson == $in", "$in | .x? | tojson | fromjson | [.. | scalars]",
+	)
+	return strings.ReplaceAll(strings.ReplaceAll(t, "LIT", lit), "%K", k)
+}
+
 func (g *G) anyOp(c *Ctx, d int) string {
-	switch g.r.Intn(24) {
+	switch g.r.Intn(26) {
+	case 24, 25:
+		return g.extKeyProg()
 	case 0:
 		return g.pick("type", "tojson", "tostring", "@json", "@text", "length?", "[.]", "{a: .}", "not", "tojson | fromjson", "[.] | tojson", "\"\\(.)\"", "[.[]?]", "[..]", ". // \"alt\"", "values", "nulls", "scalars", "iterables", "booleans", "ascii_downcase?", "explode?", "test(\"a\")?", "[splits(\"a\")]?", "fromjson?", "tonumber?", "keys?", "input_filename", "[paths]", "tojson | length", "getpath([\"a\"])?", "[limit(2; .[]?)]", "first(.[]?)", "isempty(.[]?)", "try error catch .", "error?", "[splits(\"a\"; \"g\")]?", "ltrimstr(\"a\")", "rtrimstr(\"a\")", "startswith(\"a\")?", "implode?", "@base64?", "@base64d?", "tojson | @base64 | @base64d | fromjson", "abs?", "getpath([])", "splits(\"a\")?", "ltrimstr(1)", "trim?", "[.] | flatten", "[[.]] | flatten(1)", "[., .] | unique", "[., null] | sort", "{a: .} | .a", "[.] | .[0]", ". as $x | [$x, $x] | .[1]", ". as [$a] ?// $a | $a", "@sh?", "@csv?", "@html", "@uri")
 	case 1:
